@@ -16,20 +16,20 @@ type Opt struct {
 }
 
 type Field struct {
-	Name     string `json:"name"`
-	Number   int    `json:"num"`
-	Label    string `json:"label,omitempty"` // "", optional, repeated, required
-	Kind     string `json:"kind"`            // scalar, message, enum, map, group
-	Type     string `json:"type"`            // scalar name or full type name (no leading dot)
-	MapKey   string `json:"mk,omitempty"`
-	MapVal   string `json:"mv,omitempty"`     // scalar name or full type name
-	MapValK  string `json:"mvk,omitempty"`    // scalar, message, enum
-	JSONName string `json:"json,omitempty"`
-	Default  string `json:"def,omitempty"`
-	Options  []Opt  `json:"opts,omitempty"`
-	Oneof    string `json:"oneof,omitempty"`
-	Comment  string `json:"c,omitempty"`
-	Trailing string `json:"tc,omitempty"`
+	Name     string   `json:"name"`
+	Number   int      `json:"num"`
+	Label    string   `json:"label,omitempty"` // "", optional, repeated, required
+	Kind     string   `json:"kind"`            // scalar, message, enum, map, group
+	Type     string   `json:"type"`            // scalar name or full type name (no leading dot)
+	MapKey   string   `json:"mk,omitempty"`
+	MapVal   string   `json:"mv,omitempty"`  // scalar name or full type name
+	MapValK  string   `json:"mvk,omitempty"` // scalar, message, enum
+	JSONName string   `json:"json,omitempty"`
+	Default  string   `json:"def,omitempty"`
+	Options  []Opt    `json:"opts,omitempty"`
+	Oneof    string   `json:"oneof,omitempty"`
+	Comment  string   `json:"c,omitempty"`
+	Trailing string   `json:"tc,omitempty"`
 	Group    *Message `json:"group,omitempty"`
 }
 
@@ -38,16 +38,16 @@ type Range struct {
 }
 
 type Message struct {
-	Name           string     `json:"name"`
-	Fields         []*Field   `json:"fields,omitempty"`
-	Nested         []*Message `json:"nested,omitempty"`
-	Enums          []*Enum    `json:"enums,omitempty"`
-	Extends        []*Extend  `json:"extends,omitempty"`
-	ReservedRanges []Range    `json:"rr,omitempty"`
-	ReservedNames  []string   `json:"rn,omitempty"`
-	ExtRanges      []Range    `json:"er,omitempty"`
-	Options        []Opt      `json:"opts,omitempty"`
-	Comment        string     `json:"c,omitempty"`
+	Name           string            `json:"name"`
+	Fields         []*Field          `json:"fields,omitempty"`
+	Nested         []*Message        `json:"nested,omitempty"`
+	Enums          []*Enum           `json:"enums,omitempty"`
+	Extends        []*Extend         `json:"extends,omitempty"`
+	ReservedRanges []Range           `json:"rr,omitempty"`
+	ReservedNames  []string          `json:"rn,omitempty"`
+	ExtRanges      []Range           `json:"er,omitempty"`
+	Options        []Opt             `json:"opts,omitempty"`
+	Comment        string            `json:"c,omitempty"`
 	OneofComments  map[string]string `json:"oc,omitempty"`
 }
 
@@ -96,7 +96,7 @@ type Import struct {
 }
 
 type File struct {
-	Path     string     `json:"path"` // module-relative
+	Path     string     `json:"path"`   // module-relative
 	Syntax   string     `json:"syntax"` // proto2, proto3, editions, "" (none)
 	Package  string     `json:"package"`
 	Options  []Opt      `json:"opts,omitempty"`
